@@ -146,13 +146,12 @@ def rejection_sampling(ctx, world, ev):
         ok3, why3, mask, nb = False, "", None, None
         if is_app(cand, "be2int") and is_app(cand.args[0], "bytes"):
             lst = cand.args[0].args[0]
-            if is_app(lst, "Add") and isinstance(lst.args[0], TupleV) and len(lst.args[0].items) == 1 and is_app(lst.args[0].items[0], "BitAnd"):
-                m0 = lst.args[0].items[0]
-                rest = lst.args[1]
+            # normal form of "[mask & D[0]] + D[1:]" and of "D[0] = mask & D[0]": setitem(D, 0, mask & D[0])
+            if is_app(lst, "setitem") and lst.args[1] == Const(0) and is_app(lst.args[2], "BitAnd"):
+                D = lst.args[0]
+                m0 = lst.args[2]
                 for a, b in ((m0.args[0], m0.args[1]), (m0.args[1], m0.args[0])):
-                    if is_app(b, "index") and b.args[1] == Const(0) and is_app(rest, "slice") and rest.args[0] == b.args[0] \
-                            and rest.args[1:] == (Const(1), Const(None), Const(None)):
-                        D = b.args[0]
+                    if is_app(b, "index") and b.args == (D, Const(0)):
                         mask = a
                         draw = [x for x in subterms(D) if is_app(x, "call") and x.args[0] == ent]
                         if len(draw) == 1 and D in (mk_app("list", (mk_app("iter", (draw[0],)),)), mk_app("list", (draw[0],)),
